@@ -23,7 +23,11 @@ import copy
 import os
 import sys
 
-import numpy as np
+# one BLAS thread per worker process: the pool already uses every core
+for _v in ("OMP_NUM_THREADS", "OPENBLAS_NUM_THREADS", "MKL_NUM_THREADS"):
+    os.environ.setdefault(_v, "1")
+
+import numpy as np  # noqa: E402
 
 sys.path.insert(0, os.path.join(os.path.dirname(os.path.abspath(__file__)),
                                 "..", "pylib"))
@@ -1166,11 +1170,11 @@ def main():
     binary = chk.build("asan")
     quick = chk.tier == "quick"
     sc = chk.args.scale
-    plan = [("pv", 16 if quick else 64, int((250 if quick else 1600) * sc)),
-            ("ap", 16 if quick else 64, int((30 if quick else 250) * sc)),
-            ("rg", 16 if quick else 64, int((120 if quick else 800) * sc)),
-            ("nz", 16 if quick else 64, int((20 if quick else 120) * sc)),
-            ("pk", 8 if quick else 16, int((200 if quick else 1500) * sc))]
+    plan = [("pv", 16 if quick else 64, int((250 if quick else 3000) * sc)),
+            ("ap", 16 if quick else 64, int((30 if quick else 600) * sc)),
+            ("rg", 16 if quick else 64, int((120 if quick else 1600) * sc)),
+            ("nz", 16 if quick else 64, int((20 if quick else 400) * sc)),
+            ("pk", 8 if quick else 16, int((200 if quick else 4000) * sc))]
     payloads = []
     for kind, nch, per in plan:
         if ONLY and kind not in ONLY.split(","):
